@@ -949,17 +949,17 @@ def distribution(cases, obss):
 
 
 RULE = ("hist: histories of alloc/apply/release/gc at _RuleApplier (non-trivial: >=2 applies and a release); batch: fit calls on "
-        "one BatchReactor (non-trivial: >=2 entries and at least one non-empty result); cluster: >=3 items in >=2 classes; "
+        "one BatchReactor (non-trivial: >=2 entries and at least one non-empty result); cluster: >=3 items in >=2 classes; crn: >=2 events of >=2 rules or of a rule that is not the first; "
         "runtime: every worker-count case; distinct = distinct case contents")
 EXHAUSTIVE = {"quick": False, "thorough": False}
 EXPLANATION = ("Theorems: cache transparency for every allocator / GC schedule / cache size (pinned key discipline), refutation for the "
                "unpinned discipline, fit = map single with order-preserving first-occurrence de-duplication, batched clustering = "
-               "one-shot at partition level.  Correspondence: the observed id()/dealloc trace of each run is replayed through the "
+               "one-shot at partition level, parallel SynCRN.build = serial build with every result attributed to the rule of its index.  Correspondence: the observed id()/dealloc trace of each run is replayed through the "
                "Gallina heap+cache machine and compared entry by entry (hit flags, results, final cache keys, fit outputs). "
                "The sub-space 'all histories of <=4 operations after new;new;apply, cache sizes 1 and 2, LIFO allocator' is enumerated completely.")
 TRUSTED_BASE = [
     "Coq 8.16.1 kernel + vm_compute (no native_compute)",
-    "hand-written model coq/model/C14_Model.v tied to batch_reactor.py / batch_cluster.py by the per-run correspondence",
+    "hand-written models coq/model/C14_Model.v (batch_reactor.py / batch_cluster.py) and coq/model/C14_CrnModel.v (syncrn.py) tied to the code by the per-run correspondence",
     "harness instrumentation harness/gen/c14_trace.py (wrappers installed from the harness process; weakref.finalize as the deallocation witness)",
     "CPython object model: `is`/id() semantics, an address is reused only after deallocation, dict insertion order",
     "joblib/loky and concurrent.futures return results in submission order (tested for worker counts 1..8, not proved)",
@@ -970,13 +970,20 @@ ASSUMPTIONS = ["graphs handed to the applier are not mutated while cached (Batch
 TESTED_NOT_PROVED = [
     "BatchReactor entry_n_jobs 1..8 and parallel_rules/rule_n_jobs vs serial (loky processes)",
     "AAMValidator.validate_smiles n_jobs 1..8", "BalanceReactionCheck.dicts_balance_check n_jobs 1..8",
-    "SynCRN.build(parallel=True, max_workers=k) vs serial: identical graph (nodes, attributes, edges)",
+    "SynCRN.build(parallel=True, max_workers=k) vs serial: identical graph (nodes, attributes, edges) and identical full event records "
+    "(crn cases: rule lists whose leading rules produce no task) — the real process pool is compared at run time; the Gallina model of build "
+    "treats executor.map as an order-preserving chunked map (its contract)",
+    "validate_smiles / dicts_balance_check with malformed entries in the middle of the list, every worker count vs serial",
 ]
 LEVEL_TEXT = ("Machine-checked proof (Coq) over an executable heap+cache state machine modelling _RuleApplier and BatchReactor.fit: for every "
               "allocator (address-reuse history), every garbage-collection schedule and every cache size >= 1, each application returns "
               "execute(content of the substrate, content of the rule, direction); fit is map of the single-substrate function with "
-              "order-preserving first-occurrence de-duplication; batched clustering gives the one-shot partition. The model is tied to "
-              "the code by replaying the observed id()/deallocation trace of every generated run through the machine.")
+              "order-preserving first-occurrence de-duplication; batched clustering gives the one-shot partition; and over an executable model of "
+              "SynCRN.build (task generation per step, chunked executor.map, integration into the event graph): the parallel build equals the serial "
+              "build for every rule list / configuration / worker count, and every integrated result carries the index of the rule that produced it. "
+              "The model is tied to the code by replaying the observed id()/deallocation trace of every generated run through the machine, and the "
+              "serial run's (rule, mixture) -> products table of every network-expansion case through the build model (compared with the serial and "
+              "the parallel runs with 1, 2, 3 workers on full event records).")
 LEVEL_NOTE = ("Modelled, not verified: process-level parallelism (joblib/loky, ProcessPoolExecutor.map) is an order-preserving map in the "
               "model; worker counts 1..8 are compared at run time for BatchReactor, validate_smiles, dicts_balance_check and SynCRN.build. "
               "Isomorphism inside the clustering model is an abstract equivalence (C13 provides the instance).")
